@@ -78,6 +78,8 @@ func cliMain() {
 		os.Exit(master(parseFlags(os.Args[2:]), os.Args[2:]))
 	case "worker":
 		worker(parseFlags(os.Args[2:]))
+	case "replay":
+		replay(parseFlags(os.Args[3:]), os.Args[2])
 	default:
 		fmt.Fprintln(os.Stderr, "unknown mode")
 		os.Exit(2)
@@ -305,7 +307,7 @@ func master(o *options, rawArgs []string) int {
 						}
 					}
 				}
-				if len(res.Samples) < 12 {
+				if len(res.Samples) < 64 {
 					res.Samples = append(res.Samples, wr.Samples...)
 				}
 				queue = append(queue, wr.Leftover...)
@@ -359,4 +361,34 @@ func master(o *options, rawArgs []string) int {
 		return 2
 	}
 	return 0
+}
+
+
+// replay runs one recorded path on the interpreter with the inputs pinned
+// (debugging aid: compares the engine's view with the native replay).
+func replay(o *options, file string) {
+	b, err := os.ReadFile(file)
+	if err != nil {
+		fatal("%v", err)
+	}
+	var r struct {
+		Harness string            `json:"harness"`
+		Pkg     string            `json:"pkg"`
+		Vars    map[string]string `json:"vars"`
+		Choices []int             `json:"choices"`
+		Params  map[string]int    `json:"params"`
+		UF      map[string]int    `json:"uf"`
+	}
+	json.Unmarshal(b, &r)
+	o.pkg, o.entry = r.Pkg, r.Harness
+	interp.SolverCmd = strings.Fields(o.solver)
+	m, _ := load(o)
+	e := interp.NewExplorer(o.entry)
+	e.KeepPC = true
+	interp.Params = r.Params
+	interp.ReplayOn, interp.ReplayVars, interp.ReplayChoices, interp.ReplayUF = true, r.Vars, r.Choices, r.UF
+	left := e.RunAll(func() { m.RunEntry(o.entry) }, [][]int{{}}, 50)
+	res := e.Result(left)
+	out, _ := json.MarshalIndent(res, "", " ")
+	os.Stdout.Write(out)
 }
